@@ -39,6 +39,8 @@ func rulesC02(c *Ctx) {
 	ruleCount(c, "C02.COUNT", "boltz")
 	c.Floor("C02.COUNT", 2)
 	ruleComparators(c, "C02.CMP", "boltz", "Compare")
+	ruleComparatorDirectionSet(c, "C02.CMPDIR", "boltz", "Compare")
+	ruleComparatorDecoder(c, "C02.CMPTYPE", "boltz", "Compare")
 	c.Floor("C02.CMP", 5)
 	ruleIdTieBreak(c, "C02.TIEBREAK", c.P.SSAFunc(c.P.Method("boltz", "BaseStore", "newRowComparator")))
 	ruleRowComparatorFirstNonZero(c, "C02.CMP", c.P.SSAFunc(c.P.Method("boltz", "rowComparatorImpl", "Compare")))
